@@ -56,7 +56,6 @@ _DEFS = {
 get_splicers = Unit(
     prop="C12", name="get_splicers", target="shroud/splicer.py::get_splicers",
     params={"fname": "str", "out": ("obj", "Tree", {}), "filelines": "list[str]"},
-    prebind={"save": "list[str]", "begin_subtag": "str"},
     defs=_DEFS,
     init="b_ = 0\ne_ = 0\nnev = 0\n",
     loops={
